@@ -448,6 +448,20 @@ class Loops:
         rinit = [c for c in rv.get('inner', ())][0]
         cont = ex.lv(rinit)
         v = ex.read(cont)
+        from .values import TupleVal
+        if isinstance(v, TupleVal):
+            # fixed-size array of pointers: the loop is unrolled completely (exact, no invariant needed)
+            var = loopvar['inner'][0]
+            for item in v.items:
+                ex.store[var['id']] = item
+                ex.names[var['name']] = Path(var['id'])
+                try:
+                    ex.ex(body)
+                except ContinueSignal:
+                    continue
+                except BreakSignal:
+                    break
+            return
         if isinstance(v, SVal) and set(v.f) == {'_vec'}:
             cont = cont.field('_vec')
             v = v.f['_vec']
